@@ -297,16 +297,24 @@ def run_echo(c):
     for si, stp in enumerate(c["steps"]):
         kind = stp[0]
         if kind == "replay":
+            # any datagram sent so far may be replayed: those captured before recovery, the Echo-carrying request that
+            # achieved it, and everything accepted afterwards
             if not captured:
                 continue
             data, n = captured[stp[1] % len(captured)]
             res = deliver(server, data)
             labels.add("replay-of-captured")
+            if n in seen_seq:
+                labels.add("replay-of-accepted")
             if res[0] == "accepted":
                 if initialized_by is None:
                     vio.append(V("C12/request-accepted-while-window-uninitialised", "replayed captured request seq %d" % n))
-                elif n in seen_seq or n <= initialized_by:
+                elif n in seen_seq:
+                    vio.append(V("C12/sequence-number-accepted-twice", "replay of the request with seq %d (accepted before%s) is accepted again" % (n, ", it carried the Echo value" if n == initialized_by else "")))
+                elif n <= initialized_by:
                     vio.append(V("C12/old-request-accepted-after-recovery", "seq %d, window was initialised from seq %d" % (n, initialized_by)))
+                else:
+                    seen_seq.add(n)
             elif res[0] == "other":
                 vio.append(V("C12/unprotect-raises/" + exc_key(res[1]), repr(res[1])))
             continue
@@ -330,6 +338,7 @@ def run_echo(c):
                     accepted_before_echo = True
                 initialized_by = n
                 seen_seq.add(n)
+                captured.append((data, n))
                 labels.add("recovered")
             elif res[0] == "echo":
                 if carries_fresh:
@@ -355,6 +364,7 @@ def run_echo(c):
                 if n in seen_seq:
                     vio.append(V("C12/sequence-number-accepted-twice", str(n)))
                 seen_seq.add(n)
+                captured.append((data, n))
             else:
                 vio.append(V("C12/authentic-number-above-everything-seen-rejected", "after recovery: seq %d rejected: %r" % (n, res[1:])))
     return Outcome(vio, sorted(labels), "recovered" in labels and "replay-of-captured" in labels)
@@ -396,7 +406,7 @@ RULE = (
     "interleaved with forgeries (bit-flipped copies, old ciphertext under another or a still unused higher partial IV): an authentic number is accepted at most once, never once it fell below the window, always "
     "when above everything accepted; forgeries are never accepted; and the accept/reject sequence of the authentic arrivals is identical with and without the forgeries (metamorphic). echo: a receiver whose window is "
     "uninitialised (Echo recovery value generated) sees plain requests, requests echoing the challenge, requests with a wrong Echo value and replays of captured requests: nothing is accepted before a request carries "
-    "the freshly issued value, the 4.01 challenge decrypts at the client and carries it, and afterwards captured requests stay rejected. Non-trivial = a jump or >= 2 in-window probes (window); reordered or repeated "
+    "the freshly issued value, the 4.01 challenge decrypts at the client and carries it, and afterwards captured requests stay rejected, as does a replay of the Echo-carrying request itself and of everything accepted since. Non-trivial = a jump or >= 2 in-window probes (window); reordered or repeated "
     "arrivals (wire); recovery followed by a replay of a captured request (echo). Distinct = SHA-1 of the case."
 )
 
